@@ -1,12 +1,14 @@
-/* shorthands used by the C09 contracts: pre-state (function contracts) and loop-entry (loop contracts) values */
-#define O_W_IN     __CPROVER_old(self->m_unacknowledgedStanzas.w_in)
-#define O_W_KEY    __CPROVER_old(self->m_unacknowledgedStanzas.w_key)
-#define O_W_STANZA __CPROVER_old(self->m_unacknowledgedStanzas.w_stanza)
-#define O_N        __CPROVER_old(self->m_unacknowledgedStanzas.n)
-#define O_FIRST    __CPROVER_old(self->m_unacknowledgedStanzas.first)
-#define O_LASTOUT  __CPROVER_old(self->m_lastOutgoingSequenceNumber)
-#define O_LASTIN   __CPROVER_old(self->m_lastIncomingSequenceNumber)
-#define O_ENABLED  __CPROVER_old(self->m_enabled)
+/* shorthands used by the C09 contracts: pre-state (function contracts) and loop-entry (loop contracts) values.
+   MGR is the StreamAckManager the clause talks about: `self` in its own members, `(&self->q->ack)` in C2sStreamManager
+   (redefined in front of each function; macros expand where the clause stands) */
+#define O_W_IN     __CPROVER_old(MGR->m_unacknowledgedStanzas.w_in)
+#define O_W_KEY    __CPROVER_old(MGR->m_unacknowledgedStanzas.w_key)
+#define O_W_STANZA __CPROVER_old(MGR->m_unacknowledgedStanzas.w_stanza)
+#define O_N        __CPROVER_old(MGR->m_unacknowledgedStanzas.n)
+#define O_FIRST    __CPROVER_old(MGR->m_unacknowledgedStanzas.first)
+#define O_LASTOUT  __CPROVER_old(MGR->m_lastOutgoingSequenceNumber)
+#define O_LASTIN   __CPROVER_old(MGR->m_lastIncomingSequenceNumber)
+#define O_ENABLED  __CPROVER_old(MGR->m_enabled)
 #define O_REPORTS  __CPROVER_old(gh_reports_w)
 #define O_KIND     __CPROVER_old(gh_report_kind_w)
 #define O_WIRE_N   __CPROVER_old(gh_wire_n)
@@ -17,31 +19,33 @@
 #define O_ACK_N    __CPROVER_old(gh_ack_n)
 #define O_ACK_POS  __CPROVER_old(gh_ack_pos)
 #define O_ACK_H    __CPROVER_old(gh_ack_h)
-#define LE_W_IN    __CPROVER_loop_entry(self->m_unacknowledgedStanzas.w_in)
-#define LE_W_KEY   __CPROVER_loop_entry(self->m_unacknowledgedStanzas.w_key)
-#define LE_W_STANZA __CPROVER_loop_entry(self->m_unacknowledgedStanzas.w_stanza)
-#define LE_N       __CPROVER_loop_entry(self->m_unacknowledgedStanzas.n)
-#define LE_FIRST   __CPROVER_loop_entry(self->m_unacknowledgedStanzas.first)
+#define LE_W_IN    __CPROVER_loop_entry(MGR->m_unacknowledgedStanzas.w_in)
+#define LE_W_KEY   __CPROVER_loop_entry(MGR->m_unacknowledgedStanzas.w_key)
+#define LE_W_STANZA __CPROVER_loop_entry(MGR->m_unacknowledgedStanzas.w_stanza)
+#define LE_N       __CPROVER_loop_entry(MGR->m_unacknowledgedStanzas.n)
+#define LE_FIRST   __CPROVER_loop_entry(MGR->m_unacknowledgedStanzas.first)
 #define LE_REPORTS __CPROVER_loop_entry(gh_reports_w)
 #define LE_KIND    __CPROVER_loop_entry(gh_report_kind_w)
 #define LE_WIRE_N  __CPROVER_loop_entry(gh_wire_n)
 #define LE_WIRE_CNT __CPROVER_loop_entry(gh_wire_cnt_w)
 #define LE_WIRE_POS __CPROVER_loop_entry(gh_wire_pos_w)
 
+/* booleans are compared by truth value, never with == (a havocked _Bool byte may be any non-zero value) */
+#define BEQ(a, b) ((a) ? (b) : !(b))
 /* --- the acknowledgement clauses of the property, for a handled-count h (used by setAcknowledgedSequenceNumber,
        handleAcknowledgement and handleStanza) */
 #define REPORTS_UNCHANGED (gh_reports_w == O_REPORTS && gh_report_kind_w == O_KIND)
-#define WITNESS_VIEW_UNCHANGED (MAP(self).w_in == O_W_IN && (O_W_IN ==> (MAP(self).w_key == O_W_KEY && MAP(self).w_stanza == O_W_STANZA)))
-#define MAP_UNCHANGED (!MAP(self).broken && MAP(self).n == O_N && (O_N == 0 || MAP(self).first == O_FIRST) && WITNESS_VIEW_UNCHANGED)
+#define WITNESS_VIEW_UNCHANGED (BEQ(MAP(MGR).w_in, O_W_IN) && (O_W_IN ==> (MAP(MGR).w_key == O_W_KEY && BEQ(MAP(MGR).w_stanza, O_W_STANZA))))
+#define MAP_UNCHANGED (!MAP(MGR).broken && MAP(MGR).n == O_N && (O_N == 0 || MAP(MGR).first == O_FIRST) && WITNESS_VIEW_UNCHANGED)
 /* a stored packet whose number is <= h: reported exactly once, as acknowledged, and no longer stored */
-#define ACK_COVERED(h)  ((O_W_IN && O_W_KEY <= (h)) ==> (!MAP(self).w_in && gh_reports_w == O_REPORTS + 1 && gh_report_kind_w == RK_ACKED))
+#define ACK_COVERED(h)  ((O_W_IN && O_W_KEY <= (h)) ==> (!MAP(MGR).w_in && gh_reports_w == O_REPORTS + 1 && gh_report_kind_w == RK_ACKED))
 /* a stored packet whose number is > h: still stored under the same number, not reported */
-#define ACK_BEYOND(h)   ((O_W_IN && O_W_KEY > (h)) ==> (MAP(self).w_in && MAP(self).w_key == O_W_KEY && MAP(self).w_stanza == O_W_STANZA && REPORTS_UNCHANGED))
+#define ACK_BEYOND(h)   ((O_W_IN && O_W_KEY > (h)) ==> (MAP(MGR).w_in && MAP(MGR).w_key == O_W_KEY && BEQ(MAP(MGR).w_stanza, O_W_STANZA) && REPORTS_UNCHANGED))
 /* a packet that is not stored: nothing is reported for it */
-#define ACK_ABSENT      (!O_W_IN ==> (!MAP(self).w_in && REPORTS_UNCHANGED))
+#define ACK_ABSENT      (!O_W_IN ==> (!MAP(MGR).w_in && REPORTS_UNCHANGED))
 /* the stored key range afterwards is exactly the old one without the keys <= h */
-#define ACK_RANGE(h)    ((O_N == 0 || (h) < O_FIRST) ? (MAP(self).n == O_N && (O_N == 0 || MAP(self).first == O_FIRST)) : \
-                         ((h) - O_FIRST >= O_N - 1 ? MAP(self).n == 0 : (MAP(self).n == O_N - ((h) - O_FIRST + 1) && MAP(self).first == (h) + 1)))
+#define ACK_RANGE(h)    ((O_N == 0 || (h) < O_FIRST) ? (MAP(MGR).n == O_N && (O_N == 0 || MAP(MGR).first == O_FIRST)) : \
+                         ((h) - O_FIRST >= O_N - 1 ? MAP(MGR).n == 0 : (MAP(MGR).n == O_N - ((h) - O_FIRST + 1) && MAP(MGR).first == (h) + 1)))
 #define WIRE_UNCHANGED (gh_wire_n == O_WIRE_N && gh_wire_cnt_w == O_WIRE_CNT && gh_wire_pos_w == O_WIRE_POS && gh_req_n == O_REQ_N && gh_req_pos == O_REQ_POS && gh_ack_n == O_ACK_N && gh_ack_pos == O_ACK_POS && gh_ack_h == O_ACK_H)
 /* --- inbound elements (abstract DOM, opaque strings) */
 #define EL_IS_ACK(e) (qdom_tagName(e) == S("a") && qdom_namespaceURI(e) == S("urn:xmpp:sm:3"))
